@@ -78,7 +78,7 @@ fn read_i8_values(src: &mut &[u8], sample_count: usize) -> Result<Vec<Option<Val
         match value {
             Int8::Value(n) => values.push(Some(Value::from(i32::from(n)))),
             Int8::Missing => values.push(None),
-            _ => todo!("unhandled i8 value: {:?}", value),
+            _ => return Err(DecodeError::InvalidValue),
         }
     }
 
@@ -99,12 +99,12 @@ fn read_i8_array_values(
             .into_iter()
             .map(Int8::from)
             .filter_map(|value| match value {
-                Int8::Value(n) => Some(Some(i32::from(n))),
-                Int8::Missing => Some(None),
+                Int8::Value(n) => Some(Ok(Some(i32::from(n)))),
+                Int8::Missing => Some(Ok(None)),
                 Int8::EndOfVector => None,
-                _ => todo!("unhandled i8 array value: {:?}", value),
+                _ => Some(Err(DecodeError::InvalidValue)),
             })
-            .collect();
+            .collect::<Result<_, _>>()?;
 
         if vs.len() == 1 && vs[0].is_none() {
             values.push(None);
@@ -130,7 +130,7 @@ fn read_i16_values(
         match value {
             Int16::Value(n) => values.push(Some(Value::from(i32::from(n)))),
             Int16::Missing => values.push(None),
-            _ => todo!("unhandled i16 value: {:?}", value),
+            _ => return Err(DecodeError::InvalidValue),
         }
     }
 
@@ -151,12 +151,12 @@ fn read_i16_array_values(
             .into_iter()
             .map(Int16::from)
             .filter_map(|value| match value {
-                Int16::Value(n) => Some(Some(i32::from(n))),
-                Int16::Missing => Some(None),
+                Int16::Value(n) => Some(Ok(Some(i32::from(n)))),
+                Int16::Missing => Some(Ok(None)),
                 Int16::EndOfVector => None,
-                _ => todo!("unhandled i16 array value: {:?}", value),
+                _ => Some(Err(DecodeError::InvalidValue)),
             })
-            .collect();
+            .collect::<Result<_, _>>()?;
 
         if vs.len() == 1 && vs[0].is_none() {
             values.push(None);
@@ -182,7 +182,7 @@ fn read_i32_values(
         match value {
             Int32::Value(n) => values.push(Some(Value::from(n))),
             Int32::Missing => values.push(None),
-            _ => todo!("unhandled i32 value: {:?}", value),
+            _ => return Err(DecodeError::InvalidValue),
         }
     }
 
@@ -203,12 +203,12 @@ fn read_i32_array_values(
             .into_iter()
             .map(Int32::from)
             .filter_map(|value| match value {
-                Int32::Value(n) => Some(Some(n)),
-                Int32::Missing => Some(None),
+                Int32::Value(n) => Some(Ok(Some(n))),
+                Int32::Missing => Some(Ok(None)),
                 Int32::EndOfVector => None,
-                _ => todo!("unhandled i32 array value: {:?}", value),
+                _ => Some(Err(DecodeError::InvalidValue)),
             })
-            .collect();
+            .collect::<Result<_, _>>()?;
 
         if vs.len() == 1 && vs[0].is_none() {
             values.push(None);
@@ -234,7 +234,7 @@ fn read_f32_values(
         match value {
             Float::Value(n) => values.push(Some(Value::from(n))),
             Float::Missing => values.push(None),
-            _ => todo!("unhandled f32 value: {:?}", value),
+            _ => return Err(DecodeError::InvalidValue),
         }
     }
 
@@ -255,12 +255,12 @@ fn read_f32_array_values(
             .into_iter()
             .map(Float::from)
             .filter_map(|value| match value {
-                Float::Value(n) => Some(Some(n)),
-                Float::Missing => Some(None),
+                Float::Value(n) => Some(Ok(Some(n))),
+                Float::Missing => Some(Ok(None)),
                 Float::EndOfVector => None,
-                _ => todo!("unhandled f32 array value: {:?}", value),
+                _ => Some(Err(DecodeError::InvalidValue)),
             })
-            .collect();
+            .collect::<Result<_, _>>()?;
 
         if vs.len() == 1 && vs[0].is_none() {
             values.push(None);
@@ -475,6 +475,7 @@ pub enum DecodeError {
     InvalidRawValue(raw_value::DecodeError),
     InvalidString(str::Utf8Error),
     InvalidGenotype,
+    InvalidValue,
 }
 
 impl error::Error for DecodeError {
@@ -500,6 +501,7 @@ impl fmt::Display for DecodeError {
             Self::InvalidRawValue(_) => write!(f, "invalid raw value"),
             Self::InvalidString(_) => write!(f, "invalid string"),
             Self::InvalidGenotype => write!(f, "invalid genotype"),
+            Self::InvalidValue => write!(f, "invalid value"),
         }
     }
 }
